@@ -219,11 +219,11 @@ Proof.
   split; [constructor; assumption | exact Hp].
 Qed.
 
-Lemma inv_fail : forall h, inv h -> inv (h_step h HFailedConnect).
+(* the end of a connection that negotiated nothing (apply_disconnect, else branch) *)
+Lemma inv_apply_none : forall h, inv h -> inv (apply_disconnect h None None).
 Proof.
-  intros h Hinv. cbn [h_step]. destruct (h_admin_down h); [exact Hinv|].
-  destruct (h_sess h) eqn:Es0; [exact Hinv|]. clear Es0.
-  open_inv h Hinv. cbn [h_step apply_disconnect upd_h h_gr h_rtimer h_ltimers h_rib h_sess h_gen].
+  intros h Hinv.
+  open_inv h Hinv. cbn [apply_disconnect upd_h h_gr h_rtimer h_ltimers h_rib h_sess h_gen].
   split.
   - constructor; cbn [h_rib h_gen h_sess h_rtimer h_ltimers]; [assumption|].
     intros s Hs. destruct (Hsess s Hs) as [H1 [H2 [H3 [H4 [H5 H6]]]]]. subst rt.
@@ -231,6 +231,12 @@ Proof.
   - unfold pinv. cbn [h_gr h_rtimer h_ltimers h_rib h_sess].
     destruct g as [|stale llgr|rem|p fl]; cbn [is_peer_restarting]; try exact Hp.
     destruct Hp as [H1 H2]. split; [reflexivity | exact H2].
+Qed.
+
+Lemma inv_fail : forall h, inv h -> inv (h_step h HFailedConnect).
+Proof.
+  intros h Hinv. cbn [h_step]. destruct (h_admin_down h); [exact Hinv|].
+  destruct (h_sess h) eqn:Es0; [exact Hinv|]. apply inv_apply_none. exact Hinv.
 Qed.
 
 Lemma inv_announce : forall h f id nl lc, inv h -> inv (h_step h (HAnnounce f id nl lc)).
@@ -784,6 +790,86 @@ Proof.
   - apply stale_ok_along_inv. exact inv_h0.
   - apply inv_stale_ok. apply inv_run. exact inv_h0.
 Qed.
+
+(* ------------------------------------------------------------ two connections of one neighbour *)
+
+Lemma inv_establish : forall h fams gr ll, inv h -> inv (establish h fams gr ll).
+Proof.
+  intros h fams gr ll Hinv. unfold establish. apply inv_step. apply inv_step. apply inv_step. exact Hinv.
+Qed.
+
+Lemma inv_c_step : forall c e, inv (c_h c) -> inv (c_h (c_step c e)).
+Proof.
+  intros c e Hinv. destruct e as [e| | |fams gr ll]; cbn [c_step].
+  - destruct e; cbn [c_h]; try (apply inv_step; exact Hinv).
+    destruct (c_sib c); [apply inv_apply_none|]; apply inv_step; exact Hinv.
+  - destruct (h_admin_down (c_h c)); exact Hinv.
+  - destruct (c_sib c); cbn [c_h]; [apply inv_apply_none|]; exact Hinv.
+  - destruct (c_sib c); [|exact Hinv]. destruct (h_sess (c_h c)); cbn [c_h];
+      [apply inv_apply_none | apply inv_establish]; exact Hinv.
+Qed.
+
+Lemma inv_c_run : forall evs c, inv (c_h c) -> inv (c_h (c_run c evs)).
+Proof.
+  induction evs as [|e r IH]; intros c Hinv; [exact Hinv|].
+  unfold c_run. cbn [fold_left]. apply IH. apply inv_c_step. exact Hinv.
+Qed.
+
+Lemma stale_ok_along_c_inv : forall evs c, inv (c_h c) -> stale_ok_along_c c evs = true.
+Proof.
+  induction evs as [|e r IH]; intros c Hinv; [reflexivity|]. cbn [stale_ok_along_c].
+  pose proof (inv_c_step c e Hinv) as Hinv'. rewrite (inv_stale_ok _ Hinv'). cbn [andb]. apply IH; assumption.
+Qed.
+
+(* The invariant over histories in which the neighbour has a second connection (either
+   role) registered with the arbiter at any point: opened while the first session is up or
+   down, ending in OpenSent / OpenConfirm before or after the session drops, losing the
+   collision against the Established session, or becoming the next session (with any
+   negotiated GR / LLGR sets), interleaved with every event of the one-connection histories. *)
+Theorem C10_stale_implies_timer_or_eor_two_connections :
+  forall (evs : list cevent),
+    stale_ok_along_c c0 evs = true /\ stale_ok (c_h (c_run c0 evs)) = true.
+Proof.
+  intros evs. split.
+  - apply stale_ok_along_c_inv. exact inv_h0.
+  - apply inv_stale_ok. apply inv_c_run. exact inv_h0.
+Qed.
+
+Lemma apply_gr_arms : forall h l rt ll,
+    (forall rem, h_gr h <> GLlgrStaling rem) ->
+    h_rtimer (apply_disconnect h (Some (l, rt)) ll) = true
+    /\ is_peer_restarting (h_gr (apply_disconnect h (Some (l, rt)) ll)) = true.
+Proof.
+  intros h l rt ll Hn. unfold apply_disconnect. destruct ll;
+  destruct (h_gr h) as [|stale [x|]|rem|p [|]];
+    try (exfalso; apply (Hn rem); reflexivity); cbn; split; reflexivity.
+Qed.
+
+(* A second connection being registered does not take the drop of the Established session
+   out of helper mode: in every reachable state, whether or not a second connection exists,
+   the eligible drop of a session that negotiated GR arms the restart timer and enters
+   PeerRestarting; and the drop does to the peer state exactly what it does without one. *)
+Theorem C10_second_connection_does_not_suppress_helper_mode :
+  forall (evs : list cevent) (r : reason) (s : session) l rt nb,
+    let c := c_run c0 evs in
+    h_sess (c_h c) = Some s -> s_gr s = Some (l, rt, nb) ->
+    gr_applies r nb = true -> h_admin_down (c_h c) = false ->
+    let c' := c_step c (CBase (HDown r)) in
+    c_h c' = h_step (c_h c) (HDown r)
+    /\ h_rtimer (c_h c') = true /\ is_peer_restarting (h_gr (c_h c')) = true
+    /\ c_sib c' = c_sib c.
+Proof.
+  intros evs r s l rt nb c Hs Hgr Hap Had c'.
+  pose proof (inv_c_run evs c0 inv_h0) as [Hg Hp]. fold c in Hg, Hp.
+  subst c'. cbn [c_step c_h c_sib]. split; [reflexivity|].
+  assert (forall rem, h_gr (c_h c) <> GLlgrStaling rem) as Hn.
+  { intros rem E. unfold pinv in Hp. rewrite E in Hp. destruct Hp as [Hp _]. congruence. }
+  cbn [h_step]. rewrite Hs. unfold down_of. rewrite Hgr, Hap, Had. cbv zeta.
+  match goal with |- h_rtimer (apply_disconnect ?h1 _ ?ll) = true /\ _ =>
+    destruct (apply_gr_arms h1 l rt ll Hn) as [A B] end.
+  split; [exact A | split; [exact B | reflexivity]].
+Qed.
+
 
 (* the phase / timer / route consistency behind it, as a usable corollary: in every
    reachable state a session that is up has no timer armed and its own routes are
